@@ -112,6 +112,14 @@ def vocabulary_templates(p: Program, flags: dict):
     return out
 
 
+def result_list_name(fn: ast.FunctionDef) -> str:
+    """The local list a function returns (the token list of tokenise)."""
+    for n in walk_local(fn):
+        if isinstance(n, ast.Return) and isinstance(n.value, ast.Name):
+            return n.value.id
+    raise AnalysisError(f"{fn.name}: returned list not found")
+
+
 def emitter_templates(p: Program, flags: dict):
     fi = p.func(f"{TOK}.tokenise")
     doms = emitter_domains(p, fi)
@@ -125,7 +133,7 @@ def emitter_templates(p: Program, flags: dict):
     for nm in params:
         if nm == "insert_bar_token" or nm == "flag_running_time_signature":
             extra[nm] = True
-    si = StringInterp(p, fi, flags, fd, out_lists={"tokens"}, extra=extra)
+    si = StringInterp(p, fi, flags, fd, out_lists={result_list_name(fi.node)}, extra=extra)
     si.run_function(fi.node, {})
     return si.emitted, doms
 
@@ -190,20 +198,55 @@ def branch_effect(body: list[ast.stmt], settings: dict, pre: dict[str, Sym] | No
     return nz.env
 
 
-def core_effect(env: dict[str, Sym]) -> dict[str, str]:
+def core_effect(env: dict[str, Sym], roles: dict[str, str] | None = None) -> dict[str, str]:
+    """Effect on the timing core, with the function's own variable names replaced by role names (time, bar_time,
+    remaining, total) so that functions using different local names can be compared."""
+    roles = roles or {v: v for v in CLOCK}
+    sub = {actual: Sym.atom(role) for role, actual in roles.items()}
     out = {}
-    for v in CLOCK:
-        if v in env:
-            c = env[v].canon()
-            if c != v:
-                out[v] = c
+    for role, actual in roles.items():
+        if actual in env:
+            c = env[actual].subst(sub).canon()
+            if c != role:
+                out[role] = c
     return out
 
 
-def ts_guard_split(body: list[ast.stmt]):
+ROLE_NAMES = ("cur_time", "cur_time_bar", "cur_bar_capacity_remaining", "cur_bar_capacity_total")
+
+
+def roles_from_effects(rest_env: dict[str, Sym], bar_env: dict[str, Sym], field: Sym) -> dict[str, str] | None:
+    """Identify the four clock variables of a function from what its REST and BAR handling does to them:
+    REST adds the field to two variables (time, bar time) and subtracts it from one (remaining capacity);
+    BAR sets the bar time to 0 and refills the remaining capacity from the total capacity."""
+    plus, minus = [], []
+    for v, e in rest_env.items():
+        d = e - Sym.atom(v)
+        if d == field:
+            plus.append(v)
+        elif d == -field:
+            minus.append(v)
+    if len(minus) > 1:
+        minus = [v for v in minus if v in bar_env]          # the emitter also counts a local rest buffer down
+    if len(plus) != 2 or len(minus) != 1:
+        return None
+    remaining = minus[0]
+    zero = [v for v in plus if v in bar_env and bar_env[v] == Sym.const(0)]
+    if len(zero) != 1:
+        return None
+    bar_time = zero[0]
+    time = next(v for v in plus if v != bar_time)
+    tot = bar_env.get(remaining)
+    if tot is None or not tot.is_monomial() or len(tot.atoms()) != 1:
+        return None
+    total = next(iter(tot.atoms()))
+    return {"cur_time": time, "cur_time_bar": bar_time, "cur_bar_capacity_remaining": remaining, "cur_bar_capacity_total": total}
+
+
+def ts_guard_split(body: list[ast.stmt], bar_time: str = "cur_time_bar"):
     """TIME_SIGNATURE branch: returns (guarded?, statements applied when the bar is at its start)."""
     for s in body:
-        if isinstance(s, ast.If) and isinstance(s.test, ast.Compare) and isinstance(s.test.ops[0], ast.Gt) and src(s.test.left) == "cur_time_bar" \
+        if isinstance(s, ast.If) and isinstance(s.test, ast.Compare) and isinstance(s.test.ops[0], ast.Gt) and src(s.test.left) == bar_time \
                 and isinstance(s.test.comparators[0], ast.Constant) and s.test.comparators[0].value == 0:
             skip_is_noop = not any(isinstance(x, (ast.Assign, ast.AugAssign)) for y in s.body for x in ast.walk(y))
             rest = [x for x in body if x is not s and x.lineno > s.lineno]
